@@ -26,6 +26,7 @@ import (
 	"bufio"
 	"errors"
 	"fmt"
+	"hash/fnv"
 	"math"
 	"math/big"
 	"os"
@@ -521,9 +522,15 @@ type state struct {
 	lines    int // buses written to the case file (one line each)
 	nontriv  int
 	samples  []string
+	prefix   string // history phase: prepended to the failure kind (a different kind of failure: state reached by mutators)
+	note     string // history phase: the script that led to the state, put in front of "; case"
 }
 
 func (s *state) fail(kind string, n int, detail string) {
+	kind = s.prefix + kind
+	if s.note != "" {
+		detail = strings.Replace(detail, "; case ", " [history on the built bus: "+s.note+"]; case ", 1)
+	}
 	key := fmt.Sprintf("%06d%06d", n, len(detail))
 	if old, ok := s.propfail[kind]; !ok || key < old[0] {
 		s.propfail[kind] = [2]string{key, detail}
@@ -668,7 +675,137 @@ func (s *state) run(b bspec) *big.Rat {
 	if len(s.samples) < 6 && s.calls%97 == 3 && n <= 6 {
 		s.samples = append(s.samples, line)
 	}
+	s.history(bt, b, input)
 	return first
+}
+
+// history: the property quantifies over all buses, also those whose messages were changed after
+// they were attached.  On the bus just built, a few public mutators are applied to sent messages
+// (UpdateSizeByte with sizes the bus accepts, sizes it refuses (above 8 / negative / too small for
+// the signals), the current size; SetCycleTime), deterministically from the case text (so a case
+// replays).  After EVERY step the inputs of the estimate are read back through the public getters
+// (SizeByte, CycleTime) and the same predicates as for a fresh bus are evaluated against them; a
+// refused step must leave the public state and the figures as they were; an accepted enlargement /
+// shortening must not lower the load (0 < baud).  Failure kinds get the prefix "history-".
+func (s *state) history(bt *built, b bspec, input string) {
+	if len(bt.msgs) == 0 || b.typ != 0 {
+		// undefined bus type: every size is refused and empty messages give NaN shares (open
+		// finding c17-nan-unknown-bus-type, outside the property's domain) - no history there
+		return
+	}
+	h := fnv.New64a()
+	h.Write([]byte(input))
+	r := &rng{s: h.Sum64() ^ 0x4157}
+	def := b.def
+	if def <= 0 {
+		def = 1 + r.below(1000)
+	}
+	n := len(bt.msgs)
+	cur := func() bspec {
+		v := bspec{baud: b.baud, def: def, family: b.family, builder: b.builder, nids: b.nids, typ: b.typ, dseed: b.dseed, imp: b.imp}
+		i := 0
+		for _, ifc := range b.ifaces {
+			ni := append([]mspec{}, ifc...)
+			for j := range ni {
+				ni[j].size, ni[j].cycle = bt.msgs[i].SizeByte(), bt.msgs[i].CycleTime()
+				i++
+			}
+			v.ifaces = append(v.ifaces, ni)
+		}
+		return v
+	}
+	defer func() { s.prefix, s.note = "", "" }()
+	var script []string
+	var prevLoad *big.Rat
+	steps := 3
+	for st := 0; st < steps; st++ {
+		mi := r.below(n)
+		m := bt.msgs[mi]
+		oldSize, oldCycle := m.SizeByte(), m.CycleTime()
+		before := bt.snapshot()
+		var err error
+		var what string
+		sizeStep := true
+		switch k := r.below(6); k {
+		case 0, 1: // above what a CAN 2.0A bus carries
+			ns := 9 + r.below(8)
+			if k == 1 {
+				ns = 9
+			}
+			err = m.UpdateSizeByte(ns)
+			what = fmt.Sprintf("msg key %d UpdateSizeByte(%d)", mi, ns)
+		case 2:
+			ns := r.below(9)
+			err = m.UpdateSizeByte(ns)
+			what = fmt.Sprintf("msg key %d UpdateSizeByte(%d)", mi, ns)
+		case 3:
+			ns := -1 - r.below(3)
+			err = m.UpdateSizeByte(ns)
+			what = fmt.Sprintf("msg key %d UpdateSizeByte(%d)", mi, ns)
+		case 4:
+			err = m.UpdateSizeByte(oldSize)
+			what = fmt.Sprintf("msg key %d UpdateSizeByte(%d) (its size)", mi, oldSize)
+		default:
+			sizeStep = false
+			nc := r.cycle()
+			m.SetCycleTime(nc)
+			what = fmt.Sprintf("msg key %d SetCycleTime(%d)", mi, nc)
+		}
+		verdict := "accepted"
+		if err != nil {
+			verdict = "refused"
+		}
+		script = append(script, what+" "+verdict)
+		s.note = strings.Join(script, ", ")
+		s.prefix = "history-"
+		s.hist["history/steps"]++
+		if sizeStep {
+			s.hist["history/size-step-"+verdict]++
+		} else {
+			s.hist["history/cycle-step"]++
+		}
+		if err != nil {
+			if after := bt.snapshot(); after != before {
+				s.fail("refused-change-mutates-state", n, fmt.Sprintf("a refused change (%v) changed the public state: before [%s] after [%s]; case %s", err, before, after, input))
+			}
+		}
+		v := cur()
+		s.hist["history/calls"]++
+		res, p := call(bt, def)
+		if p != nil {
+			s.fail("panic", n, fmt.Sprintf("panic %v (default %d); case %s", p, def, input))
+			return
+		}
+		l := s.checkCall(v, def, input, res)
+		if l != nil && prevLoad != nil && b.baud > 0 {
+			newSize, newCycle := m.SizeByte(), m.CycleTime()
+			slack := new(big.Rat).Mul(new(big.Rat).Abs(prevLoad), new(big.Rat).SetFrac(big.NewInt(int64(2*n)), new(big.Int).Lsh(big.NewInt(1), 50)))
+			down := new(big.Rat).Add(l, slack).Cmp(prevLoad) < 0
+			up := new(big.Rat).Sub(l, slack).Cmp(prevLoad) > 0
+			effOld, effNew := oldCycle, newCycle
+			if effOld == 0 {
+				effOld = def
+			}
+			if effNew == 0 {
+				effNew = def
+			}
+			switch {
+			case newSize == oldSize && effNew == effOld:
+				if down || up {
+					s.fail("unchanged-inputs-load-differs", n, fmt.Sprintf("a step that left every size and cycle time as it was changed the load from %v to %v; case %s", ratFloat(prevLoad), ratFloat(l), input))
+				}
+			case newSize >= oldSize && effNew <= effOld:
+				if down {
+					s.fail("monotone-in-place", n, fmt.Sprintf("enlarging a message / shortening its cycle in place (size %d -> %d, cycle %d -> %d) lowers the load from %v to %v; case %s", oldSize, newSize, effOld, effNew, ratFloat(prevLoad), ratFloat(l), input))
+				}
+			}
+		}
+		if l != nil {
+			prevLoad = l
+		} else if st == 0 && b.baud != 0 {
+			return
+		}
+	}
 }
 
 
